@@ -1,0 +1,90 @@
+// Copyright ©2026 The Gonum Authors. All rights reserved.
+// Use of this source code is governed by a BSD-style
+// license that can be found in the LICENSE file.
+
+//go:build verif
+
+package c128
+
+// Machine-checked contracts for the kernels of this package (verification
+// hook, build tag verif; this file contains comments only). They mirror the
+// contracts of internal/asm/f64; see that file and /verif/DESIGN.md.
+
+//@ spec strided(s []complex128, i0 int, n int, inc int) bool = n <= 0 || (0 <= i0 && i0 < len(s) && 0 <= i0+(n-1)*inc && i0+(n-1)*inc < len(s))
+
+//@ func Add props: C07(safety) C08
+//@ requires len(dst) >= len(s)
+//@ writes dst[k] for k in 0..len(s)
+
+//@ func AddConst props: C07(safety) C08
+//@ writes x[k] for k in 0..len(x)
+
+//@ func CumSum props: C07(safety) C08
+//@ requires len(dst) >= len(s)
+//@ writes dst[k] for k in 0..len(s)
+//@ ensures sameSlice(result, dst)
+
+//@ func CumProd props: C07(safety) C08
+//@ requires len(dst) >= len(s)
+//@ writes dst[k] for k in 0..len(s)
+//@ ensures sameSlice(result, dst)
+
+//@ func Div props: C07(safety) C08
+//@ requires len(dst) >= len(s)
+//@ writes dst[k] for k in 0..len(s)
+
+//@ func DivTo props: C07(safety) C08
+//@ requires len(dst) >= len(s) && len(t) >= len(s)
+//@ writes dst[k] for k in 0..len(s)
+//@ ensures sameSlice(result, dst)
+
+//@ func L2DistanceUnitary props: C07(safety) C08
+//@ requires len(y) >= len(x)
+//@ writes nothing
+
+//@ func L2NormUnitary props: C07(safety) C08
+//@ writes nothing
+
+//@ func Sum props: C07(safety) C08
+//@ writes nothing
+
+//@ func AxpyUnitary props: C01(frame) C07(safety) C08
+//@ requires len(y) >= len(x)
+//@ writes y[k] for k in 0..len(x)
+
+//@ func AxpyUnitaryTo props: C01(frame) C07(safety) C08
+//@ requires len(y) >= len(x) && len(dst) >= len(x)
+//@ writes dst[k] for k in 0..len(x)
+
+//@ func AxpyInc props: C01(frame) C07(safety) C08
+//@ requires int(n) >= 0 && strided(x, int(ix), int(n), int(incX)) && strided(y, int(iy), int(n), int(incY))
+//@ writes y[int(iy)+k*int(incY)] for k in 0..int(n)
+
+//@ func AxpyIncTo props: C01(frame) C07(safety) C08
+//@ requires int(n) >= 0 && strided(x, int(ix), int(n), int(incX)) && strided(y, int(iy), int(n), int(incY))
+//@ requires strided(dst, int(idst), int(n), int(incDst))
+//@ writes dst[int(idst)+k*int(incDst)] for k in 0..int(n)
+
+//@ func ScalUnitaryTo props: C01(frame) C07(safety) C08
+//@ requires len(dst) >= len(x)
+//@ writes dst[k] for k in 0..len(x)
+
+//@ func ScalIncTo props: C01(frame) C07(safety) C08
+//@ requires int(n) >= 0 && strided(x, 0, int(n), int(incX)) && strided(dst, 0, int(n), int(incDst))
+//@ writes dst[k*int(incDst)] for k in 0..int(n)
+
+//@ func DotUnitary DotcUnitary DotuUnitary props: C01(frame) C07(safety) C08
+//@ requires len(y) >= len(x)
+//@ writes nothing
+
+//@ func DotcInc DotuInc props: C01(frame) C07(safety) C08
+//@ requires int(n) >= 0 && strided(x, int(ix), int(n), int(incX)) && strided(y, int(iy), int(n), int(incY))
+//@ writes nothing
+
+//@ func ScalUnitary DscalUnitary props: C01(frame) C07(safety) C08
+//@ writes x[k] for k in 0..len(x)
+
+//@ func ScalInc DscalInc props: C01(frame) C07(safety) C08
+//@ requires int(n) >= 0 && strided(x, 0, int(n), int(inc))
+//@ writes x[k*int(inc)] for k in 0..int(n)
+
